@@ -207,12 +207,15 @@ class Path:
             if inner is not None and inner[0] < len(inner[1]):
                 d = inner[1][inner[0]]
                 inner[0] += 1
+                if d == 'X':
+                    raise MergeAbort()
             else:
                 t = self.feasible(cond)
                 f = self.feasible(z3.Not(cond))
-                if t and f:
-                    raise MergeAbort()
-                if not t and not f:
+                if t == f:
+                    if inner is not None:
+                        inner[1].append('X')
+                        inner[0] += 1
                     raise MergeAbort()
                 d = t
                 if inner is not None:
@@ -297,11 +300,9 @@ class Path:
             pos = len(self.decisions)
             if pos < len(self.prefix):
                 ent = self.prefix[pos]
-                if ent[0] == 'A':
-                    self.decisions.append(ent)
-                    raise MergeAbort()
-                if ent[0] != 'M':
+                if ent[0] not in ('M', 'A'):
                     raise InterpError(f'nondeterministic replay: expected M/A at {pos}, got {ent}')
+                # an aborted attempt is re-run too: speculation may materialise lazy inputs
                 self.merge_inner = [0, list(ent[1])]
             else:
                 self.merge_inner = [0, []]
@@ -321,6 +322,10 @@ class Path:
                 finals = self._rollback(t)
                 results.append((v, finals))
             (v1, w1), (v2, w2) = results
+            if self.ex.merge_light_only:
+                for v in [v1, v2] + [w[2] for w in w1.values()] + [w[2] for w in w2.values()]:
+                    if self.is_heavy(v):
+                        raise MergeAbort()
             merged_writes = []
             for key in set(w1) | set(w2):
                 c_, k_, _ = (w1.get(key) or w2.get(key))
@@ -333,19 +338,35 @@ class Path:
             mv = self.ite_value(cond, v1, v2)
         except MergeAbort:
             if top:
+                inner = tuple(self.merge_inner[1])
                 self.merge_inner = None
-                if len(self.decisions) >= len(self.prefix):
-                    self.decisions.append(('A',))
-                else:
-                    # replaying an 'M' entry that now aborts
+                pos = len(self.decisions)
+                if pos < len(self.prefix) and self.prefix[pos][0] != 'A':
                     raise InterpError('nondeterministic replay: merge aborted on replay')
+                self.decisions.append(('A', inner))
             raise
         if top:
+            pos = len(self.decisions)
+            if pos < len(self.prefix) and self.prefix[pos][0] != 'M':
+                raise InterpError('nondeterministic replay: merge succeeded on replay of an aborted one')
             self.decisions.append(('M', tuple(self.merge_inner[1])))
             self.merge_inner = None
         for (c_, k_, v_) in merged_writes:
             self.write(c_, k_, v_)
         return mv
+
+    def is_heavy(self, v) -> bool:
+        """does a value contain pow2 / bit_length / division terms (merging those hurts the solver)?"""
+        if isinstance(v, (tuple, list)):
+            return any(self.is_heavy(x) for x in v)
+        if isinstance(v, EnumV):
+            return self.is_heavy(v.idx)
+        if not is_z3(v) or is_sym_bool(v):
+            return False
+        p2, bls, dms, ipows = theory._collect1(v)
+        if p2 or bls or ipows:
+            return True
+        return any(not z3.is_int_value(t.arg(1)) for t in dms.values())
 
     def ite_value(self, cond, a, b):
         if a is b:
@@ -1035,13 +1056,13 @@ class Path:
             m = self.index.find_method(a.cls, f'__{nm}__')
             if m is not None:
                 r = self.call_function(FuncV(m, a), [b], {})
-                if r != NI:
+                if not (isinstance(r, ExtV) and r.name == 'builtins.NotImplemented'):
                     return r
         if isinstance(b, SObj):
             m = self.index.find_method(b.cls, f'__r{nm}__')
             if m is not None:
                 r = self.call_function(FuncV(m, b), [a], {})
-                if r != NI:
+                if not (isinstance(r, ExtV) and r.name == 'builtins.NotImplemented'):
                     return r
         raise SymRaise(mk_exc('TypeError'))
 
@@ -1070,13 +1091,13 @@ class Path:
                 m = self.index.find_method(a.cls, dn[0])
                 if m is not None:
                     r = self.call_function(FuncV(m, a), [b], {})
-                    if r != NI:
+                    if not (isinstance(r, ExtV) and r.name == 'builtins.NotImplemented'):
                         return r
             if isinstance(b, SObj):
                 m = self.index.find_method(b.cls, dn[1])
                 if m is not None:
                     r = self.call_function(FuncV(m, b), [a], {})
-                    if r != NI:
+                    if not (isinstance(r, ExtV) and r.name == 'builtins.NotImplemented'):
                         return r
             raise SymRaise(mk_exc('TypeError'))
         if isinstance(a, EnumV) and isinstance(b, EnumV) and a.cls == b.cls:
@@ -1136,7 +1157,7 @@ class Path:
                 m = self.index.find_method(a.cls, '__eq__')
                 if m is not None:
                     r = self.call_function(FuncV(m, a), [b], {})
-                    if r != NI:
+                    if not (isinstance(r, ExtV) and r.name == 'builtins.NotImplemented'):
                         return r
                 elif a is b:
                     return True
@@ -1144,7 +1165,7 @@ class Path:
                 m = self.index.find_method(b.cls, '__eq__')
                 if m is not None:
                     r = self.call_function(FuncV(m, b), [a], {})
-                    if r != NI:
+                    if not (isinstance(r, ExtV) and r.name == 'builtins.NotImplemented'):
                         return r
             return a is b
         if isinstance(a, EnumV) or isinstance(b, EnumV):
